@@ -81,6 +81,10 @@ func (g *gen) Generate(typs []types.Type) error {
 		dirstr = "<-"
 	}
 	typstr := g.TypeString(elemTyp)
+	if ch, isChan := elemTyp.(*types.Chan); isChan && ch.Dir() == types.RecvOnly {
+		// chan <-chan T is a channel to send channels into: the arrow binds to the left
+		typstr = "(" + typstr + ")"
+	}
 	p.P("")
 	p.P("// %s duplicates messages received on c to both c1 and c2.", name)
 	p.P("func %s(c %schan %s) (c1, c2 <-chan %s) {", name, dirstr, typstr, typstr)
